@@ -1386,9 +1386,14 @@ def whole_extract(t):
     return d
 
 
-def whole_replay(ctx, rep, modes=("det", "auto", "decl", "he")):
-    """Every traced run through Opt.init / Full.step / Opt.finish: the initial phase and the final re-sampling are derived by the model."""
-    traces = [t for t in get_pool(ctx) if t["constructed"] and t["hdr"] is not None and t.get("final") and t["spec"]["mode"] in modes
+WHOLE_PLAIN_OPTIONS = {"n_search", "max_fun_evals", "noise_final_samples", "tol_mesh", "accelerate_mesh", "tol_stall_iters", "max_iter", "fun_eval_start", "tol_fun",
+                       "tol_noise", "n_train_max", "n_train_min", "display", "search_n_try", "n_search_iter", "random_seed"}
+
+
+def whole_replay(ctx, rep, modes=("det", "auto", "decl", "he"), plain_only=False):
+    """Every traced run through Opt.init / Full.step / Opt.finish: the initial phase and the final re-sampling are derived by the model.
+    `plain_only`: leave out runs whose options switch on logic the whole-call model does not transcribe (pools that toggle every boolean option)."""
+    traces = [t for t in get_pool(ctx) if (not plain_only or (set(t["spec"].get("options") or {}) <= WHOLE_PLAIN_OPTIONS and not t["spec"].get("np_options"))) and t["constructed"] and t["hdr"] is not None and t.get("final") and t["spec"]["mode"] in modes
               and not t.get("ei_script") and not t.get("es_script") and not t.get("gp_faults") and not t.get("predict_faults") and not t.get("fault")
               and not t.get("update_faults") and not t["hdr"]["opts"].get("stobads") and t["error"] is None]
     items, skipped = [], {}
